@@ -176,16 +176,21 @@ def spaces(tier, seed):
         out.append(ProductSpace('W(4,5)xone-row', S.word_dims(S.alphabet(4), 5) + [shorts], Pipeline(min_peaks=2),
                                 describe='5-letter words with boundary 12: recordings that hold exactly ONE or two complete cycles '
                                          '(tables of one / two rows)', bounds={'letters': S.alphabet(4), 'option_sets': len(shorts)}))
+        from bcmc.explore import ListSpace
+        lv = [(), ('trough',), ('amp',), ('amp', 'trough'), ('b5',), ('nosamp',)]
+        out.append(ListSpace('long-recordings', S.long_cases(['@A', '@B', '@C', '@D'] if tier == 'quick' else ['@A', '@B', '@C', '@D', '@E'], lv), ev,
+                             describe='long real-valued recordings (660 / 1430 / 300 / 200 cycles; 33000-70000 samples, one longer than 2**16; '
+                                      'fs 500 / 1000 / 1017.25 / 2000) x centring x method: size-keyed code paths'))
     if tier != 'quick':
         # thorough = everything above + larger word sets and deeper option deviations
-        al = S.alphabet(8, seed, extra=0)
-        out.append(ProductSpace('W(8,5)xcore', S.word_dims(al, 5) + [CORE_SETS], ev,
+        al = S.alphabet(7, seed, extra=0)
+        out.append(ProductSpace('W(7,5)xcore', S.word_dims(al, 5) + [CORE_SETS], ev,
                                 bounds={'letters': al, 'option_sets': len(CORE_SETS)}))
         ex = S.alphabet(0, seed, extra=2)
         out.append(ProductSpace('Wextra(2+3,5)xcore', S.word_dims(ex + S.alphabet(3), 5) + [CORE_SETS], ev,
                                 describe='words over the two seed-selected extra letters + a, b, d', bounds={'letters': ex + S.alphabet(3)}))
-        out.append(ProductSpace('W(6,6)xcentring', S.word_dims(S.alphabet(6), 6) + [[(), ('trough',)]], ev,
-                                bounds={'letters': S.alphabet(6)}))
+        out.append(ProductSpace('W(5,6)xcentring', S.word_dims(S.alphabet(5), 6) + [[(), ('trough',)]], ev,
+                                bounds={'letters': S.alphabet(5)}))
         two = S.option_sets(2)
         out.append(ProductSpace('W(3,5)x2dev', S.word_dims(S.alphabet(3), 5) + [two], Pipeline(fit_too=False),
                                 bounds={'letters': S.alphabet(3), 'option_sets': len(two), 'max_deviations': 2}))
